@@ -92,6 +92,12 @@ def edit (st : St) : EditRes → St × List String
 | .runtimeError => (st, "R RuntimeError" :: report st [])
 | .typeError => (st, "R TypeError" :: report st [])
 
+def doSetup (st : St) : St × List String :=
+  let (ids, _) := setupLog st.tree
+  match Mgr.setupNode st.tree with
+  | .ok n' => ({ st with tree := n' }, ["U " ++ String.intercalate " " (ids.map toString)] ++ report { st with tree := n' } [])
+  | .error e => ({ st with dead := true }, ["U " ++ String.intercalate " " (ids.map toString), "ERR " ++ errStr e])
+
 def step (st : St) (line : String) : St × List String :=
   if st.dead then (st, ["SKIP"]) else
   match tokens line with
@@ -125,11 +131,8 @@ def step (st : St) (line : String) : St × List String :=
                  s!"V {pairsStr m'.snap.visited} | {pairsStr m'.snap.previously} | {boolStr m'.snap.changed}"]
                 ++ report st' tr)
       | .error e => ({ st with dead := true }, ["ERR " ++ errStr e])
-  | ["setup"] =>
-      let (ids, ok) := setupLog st.tree
-      match Mgr.setupNode st.tree with
-      | .ok n' => ({ st with tree := n' }, ["U " ++ String.intercalate " " (ids.map toString)] ++ report { st with tree := n' } [])
-      | .error e => ({ st with dead := true }, ["U " ++ String.intercalate " " (ids.map toString), "ERR " ++ errStr e])
+  | ["setup"] => doSetup st
+  | ["setupt"] => doSetup st      -- setup(timeout=…): same contract on the path that does not time out
   | ["shutdown"] =>
       (st, ["D " ++ String.intercalate " " ((Node.iterate st.tree).map (fun x => toString x.id))])
   | ["prune", i] =>
@@ -173,6 +176,15 @@ def initTree (toks : List String) : Option Node :=
       match parseTree rest with
       | some (b, []) => some (Idioms.renumber (Idioms.oneshot b key (parsePath path) (both = "1")))
       | _ => none
+  | "idiom" :: "eitheror2" :: n :: rest => do
+      -- two either_or idioms with the same name and the DEFAULT namespace (derived from the name and the root's
+      -- unique id; the harness canonicalises the ids to U1, U2 in order of appearance) side by side under a Parallel
+      let n ← n.toNat?
+      let (cs, rest') ← parseChecks n rest
+      let ts ← parseTrees rest'
+      let eo1 := Idioms.eitherOr cs (ts.take n) "/either_or/U1/conditions"
+      let eo2 := Idioms.eitherOr cs (ts.drop n) "/either_or/U2/conditions"
+      pure (Idioms.renumber (Node.par 0 (.onAll false) .invalid none [eo1, eo2]))
   | "idiom" :: "eitheror" :: ns :: n :: rest => do
       let n ← n.toNat?
       let (cs, rest') ← parseChecks n rest
